@@ -182,6 +182,21 @@ def oracle(ctx):
             fails.append(f'exit status {r4[0]} although a malformed file was added')
         for f in fails:
             res.oracle_failures.append(dict(op='e2e', input=dict(files=fs, extra=[p for p in v[1] if p not in v[0]], spread=sorted(v[2]), shadow=[p for p in v[4] if p not in v[0]]), impl_output=dict(exit=r0[0], stderr=e2e.error_lines(r0[2])[:6]), oracle_expectation=f[:1500]))
+    # references between units of the *same* priority (a container joining another container's network): the result must
+    # not depend on which of the two is discovered first
+    for a, b in (('web', 'db'), ('a', 'z'), ('z', 'a'), ('front', 'back')):
+        for svcname in ('', 'ServiceName=renamed\n'):
+            res.oracle_evals += 1
+            ta = f'[Container]\nImage=localhost/i\nNetwork={b}.container\n'
+            tb = '[Container]\nImage=localhost/j\n' + svcname
+            r1 = run_set({f'c0/{a}.container': ta, f'd0/{b}.container': tb})
+            r2 = run_set({f'c0/{b}.container': tb, f'd0/{a}.container': ta})
+            s1, s2 = by_source(r1[1], r1[3]), by_source(r2[1], r2[3])
+            if r1[0] != 0 or r2[0] != 0 or s1 != s2 or len(s1) != 2:
+                res.oracle_failures.append(dict(op='e2e', input={f'{a}.container': ta, f'{b}.container': tb},
+                                                impl_output=dict(referrer_first=dict(exit=r1[0], services=sorted(s1), stderr=e2e.error_lines(r1[2])[:3]),
+                                                                 referenced_first=dict(exit=r2[0], services=sorted(s2), stderr=e2e.error_lines(r2[2])[:3])),
+                                                oracle_expectation='both placements give the same two services and exit status 0 (the referenced container is found whichever is discovered first)'))
     # known finding KF-C10-1
     for k in ctx.known:
         ex = json.load(open(os.path.join(core.VERIF, 'known_findings.d', k['example'])))
